@@ -45,6 +45,7 @@ type GenCfg struct {
 	PSourceTag         float64  // per field and tag kind
 	NoNestedSourceTags bool     // fields of nested structs carry no source tags (open finding: nested lookups ignore them)
 	NoNestedStructs    bool     // no struct below the root struct (flat sources)
+	LongKeys           bool     // some schema keys are 33..64 bytes long
 	LogicalKeys        bool     // Render keys struct values by schema key (a logical record to be re-keyed per front end)
 	PostBehaviours     []string // behaviours of generated PostTransforms (default: mutate)
 	PPre               float64  // probability that a string leaf / string slice is wrapped in Preprocess (parse only)
@@ -655,6 +656,10 @@ func (g *Gen) GenNode(depth int, root bool) *Node {
 				}
 			}
 			used[gn] = true
+			if g.Cfg.LongKeys && g.p(0.08, "longkey") {
+				key = key + strings.Repeat("Long", g.intn(8, 14, "lk"))
+				used[strings.ToLower(Field{Key: key}.GoName())] = true
+			}
 			f := Field{Key: key}
 			d := depth - 1
 			if nf > 6 {
